@@ -289,7 +289,9 @@ func (e *kvElection) attemptAcquireWithRetry(ctx context.Context) {
 					zap.Error(err),
 				)...,
 			)
-			e.becomeFollower()
+			if e.becomeFollower() {
+				e.notifyDemoted("acquire_failed")
+			}
 			return
 		}
 
@@ -498,7 +500,9 @@ func (e *kvElection) attemptPriorityTakeover(payloadBytes []byte) error {
 	return nil
 }
 
-func (e *kvElection) becomeFollower() {
+// becomeFollower moves the election to the follower state and reports whether
+// leadership was lost by this call, i.e. whether the demotion callback is due.
+func (e *kvElection) becomeFollower() bool {
 	e.mu.Lock()
 	defer e.mu.Unlock()
 
@@ -512,7 +516,7 @@ func (e *kvElection) becomeFollower() {
 	// A stopped election stays stopped: a late acquisition failure must not
 	// turn it into a follower again or restart the watcher.
 	if fromState == StateStopped {
-		return
+		return false
 	}
 
 	wasLeader := e.isLeader.Load()
@@ -544,6 +548,25 @@ func (e *kvElection) becomeFollower() {
 			defer e.wg.Done()
 			e.watchLoop(e.ctx)
 		}()
+	}
+
+	return wasLeader
+}
+
+// notifyDemoted runs the demotion callback, if one is registered.
+func (e *kvElection) notifyDemoted(reason string) {
+	e.mu.RLock()
+	onDemote := e.onDemote
+	e.mu.RUnlock()
+
+	if onDemote != nil {
+		log := e.getLogger()
+		log.Info("leader_demoted",
+			append(e.logWithContext(e.ctx),
+				zap.String("reason", reason),
+			)...,
+		)
+		onDemote()
 	}
 }
 
